@@ -9,4 +9,4 @@ Extraction "edif_model.ml"
   sep_bracket sep_underscore net_bit dec int_of bit_ident bit_name
   mb_add mb_merge assemble wire_of cab_is_array member_outer member_inner member_read
   emit_cable read_cable read_nets emit_nets norm_entry
-  elab_text elab_tokens elab_file elab_file_ext read_first.
+  elab_text elab_tokens elab_file read_first.
